@@ -15,6 +15,9 @@ type Pool struct {
 	Vals [][]byte
 	// Big: history contains values above the token threshold => no GREATER/LESS compares
 	Big bool
+	// NoBigPrev: keep the known prev_kv size-cut finding (a defect against C01) out of histories with big values - for
+	// checks of OTHER properties, which would otherwise stumble over it
+	NoBigPrev bool
 	// Mix: "" default, "txn" transaction heavy, "read" few writes
 	Mix string
 }
@@ -41,6 +44,9 @@ func longKeys(r *rand.Rand) [][]byte {
 }
 
 // NewPool picks n distinct keys. class: 0 edge/short, 1 with long keys, 2 big values
+// NoBigPrev (process-wide, set from the driver's command line) has the effect of Pool.NoBigPrev for every pool
+var NoBigPrev bool
+
 func NewPool(r *rand.Rand, n int, class int) *Pool {
 	p := &Pool{R: r, Big: class == 2}
 	alpha := []byte{0, 1, 'a', 'b', 254, 255}
@@ -163,7 +169,7 @@ func (p *Pool) PutOp() m.Op {
 
 func (p *Pool) DelOp(top bool) m.Op {
 	k := p.AnyKey()
-	if p.Big && p.Mix == "read" {
+	if p.Big && (p.Mix == "read" || p.NoBigPrev || NoBigPrev) {
 		// C09 histories are about reads: keep the known prev_kv size-cut finding (C01) out of them
 		return m.Op{T: "del", K: k, End: p.End(k, top), Count: p.R.Intn(2) == 0}
 	}
